@@ -15,12 +15,15 @@ AllOps == {"AND","OR","EQUALS","LIKE","NOT","RANGE","MUST","MUST_NOT","BOOST","F
 MapOf(run) == CASE run.mode = "all"     -> [o \in AllOps |-> o]
                 [] run.mode = "removed" -> [o \in AllOps \ {run.mop} |-> o]
                 [] run.mode = "over"    -> [o \in AllOps |-> IF o = run.mop THEN "X" \o o ELSE o]
+                [] OTHER                -> [o \in AllOps |-> o]
 \* an argument is the rendered child, wrapped in parentheses at most
 ArgOk(x, bare) == x = bare \/ x = "(" \o bare \o ")"
 CallOk(real, model) == real.op = model.op /\ real.ret = model.ret /\ ArgOk(real.l, model.lb) /\ ArgOk(real.r, model.rb)
 CallsOk(real, model, n) == \A i \in 1..n : CallOk(real[i], model[i])
 \* one render against the fold discipline (REF)
 RunOk(T, run) ==
+  IF run.mode = "undefined" THEN run.outcome = "err" /\ run.out = ""     \* an operator nobody registered: error, no partial SQL
+  ELSE
   LET m == MapOf(run)
       w == F!Fold(T, m) IN
   IF w.ok THEN run.outcome = "ok" /\ Len(run.calls) = Len(w.calls) /\ CallsOk(run.calls, w.calls, Len(w.calls)) /\ run.out = w.ret
@@ -30,6 +33,7 @@ RunOk(T, run) ==
 \* conformance with the MECH reading of Fold.tla: exactly the parenthesisation Base.Render uses today (drift, not a verdict)
 Strip(c) == [op |-> c.op, l |-> c.l, r |-> c.r, ret |-> c.ret]
 RunExact(T, run) ==
+  run.mode = "undefined" \/
   LET w == F!Fold(T, MapOf(run)) IN
   Len(run.calls) <= Len(w.calls) /\ \A i \in 1..Len(run.calls) : run.calls[i] = Strip(w.calls[i])
 
